@@ -1,12 +1,12 @@
 /-
   Lang — a deep embedding of the core of the Reduino DSL (source side) and of the emitted C++ (target side).
-  Source fragment: int/bool values; + - *, unary minus, comparisons, and/or/not, conditional expressions;
-  assignment, augmented assignment, if/elif/else, while, for-range, break, serial write, sleep; a run-once
-  prologue and an optional `while True:` main loop.
+  Source fragment: int/bool values; + - *, bitwise & | ^ (W1), unary minus, comparisons, and/or/not, conditional
+  expressions; assignment, augmented assignment (all binary operators), if/elif/else, while, for-range, break,
+  serial write, sleep; a run-once prologue and an optional `while True:` main loop.
 -/
 namespace Reduino.Lang
 
-inductive BinOp where | add | sub | mul
+inductive BinOp where | add | sub | mul | band | bor | bxor
   deriving DecidableEq, Repr
 inductive CmpOp where | lt | le | gt | ge | eq | ne
   deriving DecidableEq, Repr
@@ -74,10 +74,52 @@ inductive Ev where
   | delay (ms : Int)
   deriving DecidableEq, Repr
 
+/-! bitwise operators on arbitrary-precision two's-complement integers (Python's `& | ^` on ints; C's on in-range `int`s).
+    Core Lean has them on `Nat` only; a negative number `-(n+1)` is the complement of `n`. -/
+
+/-- `m & ~n` on naturals (`m &&& n` is a sub-mask of `m`) -/
+def natAndNot (m n : Nat) : Nat := m ^^^ (m &&& n)
+
+def bitAnd : Int → Int → Int
+  | .ofNat m, .ofNat n => .ofNat (m &&& n)
+  | .ofNat m, .negSucc n => .ofNat (natAndNot m n)
+  | .negSucc m, .ofNat n => .ofNat (natAndNot n m)
+  | .negSucc m, .negSucc n => .negSucc (m ||| n)
+
+def bitOr : Int → Int → Int
+  | .ofNat m, .ofNat n => .ofNat (m ||| n)
+  | .ofNat m, .negSucc n => .negSucc (natAndNot n m)
+  | .negSucc m, .ofNat n => .negSucc (natAndNot m n)
+  | .negSucc m, .negSucc n => .negSucc (m &&& n)
+
+def bitXor : Int → Int → Int
+  | .ofNat m, .ofNat n => .ofNat (m ^^^ n)
+  | .ofNat m, .negSucc n => .negSucc (m ^^^ n)
+  | .negSucc m, .ofNat n => .negSucc (m ^^^ n)
+  | .negSucc m, .negSucc n => .ofNat (m ^^^ n)
+
+/-- the operator on integers -/
 def BinOp.eval : BinOp → Int → Int → Int
   | .add, a, b => a + b
   | .sub, a, b => a - b
   | .mul, a, b => a * b
+  | .band, a, b => bitAnd a b
+  | .bor, a, b => bitOr a b
+  | .bxor, a, b => bitXor a b
+
+/-- Python's value of `x op y`: bools are ints in arithmetic, but `& | ^` of two bools is a bool -/
+def BinOp.pyVal : BinOp → Val → Val → Val
+  | .band, .bool a, .bool b => .bool (a && b)
+  | .bor, .bool a, .bool b => .bool (a || b)
+  | .bxor, .bool a, .bool b => .bool (a != b)
+  | op, x, y => .int (op.eval x.toInt y.toInt)
+
+/-- the Python `ast` operator class each constructor stands for (key of the transpiler's `_BIN` table, see GenOb/Ops) -/
+def BinOp.astName : BinOp → String
+  | .add => "Add" | .sub => "Sub" | .mul => "Mult" | .band => "BitAnd" | .bor => "BitOr" | .bxor => "BitXor"
+
+def CmpOp.astName : CmpOp → String
+  | .lt => "Lt" | .le => "LtE" | .gt => "Gt" | .ge => "GtE" | .eq => "Eq" | .ne => "NotEq"
 
 def CmpOp.eval : CmpOp → Int → Int → Bool
   | .lt, a, b => a < b
